@@ -351,6 +351,17 @@ func c11nontrivial(d *DocSpec) bool {
 
 func (m c11) Case(c *Ctx, r *RNG) {
 	d := genDoc(r, docOpts{MaxPrimary: c.Pick(5, 12), MaxIncluded: c.Pick(5, 12), Errors: true, UniqueIDs: true})
+	// to-many lists with a repeated ID (a list, not a set, is what a resource holds)
+	if r.Chance(1, 3) {
+		for _, rs := range d.allResources() {
+			for k, v := range rs.ToMany {
+				if len(v) >= 2 && r.Bool() {
+					rs.ToMany[k] = append(append([]string{}, v...), v[r.Intn(len(v))])
+					c.Count("to_many_with_repeated_id")
+				}
+			}
+		}
+	}
 	if c.Index < 2 {
 		c.Sample(d)
 	}
